@@ -93,6 +93,8 @@ class CUnit:
                 continue
             if node.kind == "FunctionDecl":
                 has_body = any(c.kind == "CompoundStmt" for c in node.children)
+                if has_body:
+                    normalise_loops(node)
                 (self.functions if has_body else self.prototypes)[node.props.get("name", "?")] = node
             elif node.kind == "RecordDecl" and node.props.get("name"):
                 if any(c.kind == "FieldDecl" for c in node.children) or node.props["name"] not in self.records:
@@ -117,6 +119,50 @@ class CUnit:
     def fields(self, rname: str) -> List[str]:
         r = self.records.get(rname)
         return [f"{c.props.get('type')} {c.props.get('name')}" for c in r.children if c.kind == "FieldDecl"] if r else []
+
+
+def normalise_loops(root: CNode) -> None:
+    """
+    C normal form of counting loops:  `v = e;  while (cond(v)) { body; v++; }`  (init directly before the loop, the step the last
+    statement of the body, no `continue`, v not assigned elsewhere in the body)  becomes  `for (v = e; cond(v); v++) { body }`,
+    so that every rule sees one layout for the same iteration.
+    """
+    for n in root.walk():
+        if n.kind != "CompoundStmt":
+            continue
+        out: List[CNode] = []
+        for st in n.children:
+            prev = out[-1] if out else None
+            # `return c ? a : b;`  ->  `if (c) return a; else return b;`
+            if st.kind == "ReturnStmt" and st.children and strip(st.children[0]).kind == "ConditionalOperator":
+                c, a, b = strip(st.children[0]).children[:3]
+                out.append(CNode("IfStmt", {}, [c, CNode("CompoundStmt", {}, [CNode("ReturnStmt", {}, [a], st.line)], st.line),
+                                                CNode("CompoundStmt", {}, [CNode("ReturnStmt", {}, [b], st.line)], st.line)], st.line))
+                continue
+            if st.kind == "WhileStmt" and len(st.children) == 2 and st.children[1].kind == "CompoundStmt" and st.children[1].children and prev is not None:
+                var = None
+                if prev.kind == "DeclStmt" and len(prev.children) == 1 and prev.children[0].kind == "VarDecl" and prev.children[0].children:
+                    var = prev.children[0].props.get("name")
+                elif prev.kind == "BinaryOperator" and prev.props.get("opcode") == "=" and strip(prev.children[0]).kind == "DeclRefExpr":
+                    var = strip(prev.children[0]).props.get("ref")
+                body = st.children[1]
+                last = body.children[-1]
+                is_step = (last.kind == "UnaryOperator" and last.props.get("opcode") in ("++", "--")
+                           or last.kind == "CompoundAssignOperator" and last.props.get("opcode") in ("+=", "-=")) \
+                    and strip(last.children[0]).kind == "DeclRefExpr" and strip(last.children[0]).props.get("ref") == var
+                rest = body.children[:-1]
+
+                def writes(x: CNode) -> bool:
+                    return (x.kind in ("BinaryOperator", "CompoundAssignOperator") and str(x.props.get("opcode", "")).endswith("=")
+                            and x.props.get("opcode") not in ("==", "!=", "<=", ">=") or
+                            x.kind == "UnaryOperator" and x.props.get("opcode") in ("++", "--")) \
+                        and strip(x.children[0]).kind == "DeclRefExpr" and strip(x.children[0]).props.get("ref") == var
+                in_cond = any(x.kind == "DeclRefExpr" and x.props.get("ref") == var for x in st.children[0].walk())
+                if var and is_step and in_cond and not any(x.kind == "ContinueStmt" or writes(x) for r in rest for x in r.walk()):
+                    out[-1] = CNode("ForStmt", {}, [prev, st.children[0], last, CNode("CompoundStmt", {}, rest, body.line)], prev.line)
+                    continue
+            out.append(st)
+        n.children = out
 
 
 def expand_calls(unit: "CUnit", n: CNode, depth: int = 3) -> CNode:
